@@ -82,6 +82,7 @@ Proof.
   constructor.
   - intros b t b' t' Hb Ht Hb' Ht' E. destruct (tx_unique b t b' t' Hb Ht Hb' Ht' E). assumption.
   - intros b t o b' t' o' Hb Ht Ho Hb' Ht' Ho' E. destruct (create_unique b t o b' t' o' Hb Ht Ho Hb' Ht' Ho' E) as [_ [? ?]]. auto.
+  - apply (vc_idx _ _ Hv).
 Qed.
 
 End Chain.
